@@ -3,7 +3,10 @@
 Bounded-exhaustive enumeration of small note arrays (every multiset of rows over small alphabets,
 every row permutation), of periodic families of every length 1..120 (and a few up to 300 rows,
 crossing the K_pre=10 / K_post=40 context windows of ps13), of all pitch pairs 21..108, of all
-pitch-class sets of size <= 3, and of MIDI files written from such arrays, on the real
+pitch-class sets of size <= 3, of long passages of low pitch-class variety (one pitch class 128..900
+times: repeated notes, tremolos of every pitch-class pair, Alberti figures; 255..900 rows), of
+histories of earlier key queries (plain / return_sorted_keys=True x profile set, depth <= 2 or 3)
+followed by the key clauses on a probe, and of MIDI files written from such arrays, on the real
 estimate_spelling / estimate_voices / estimate_key / load_score_midi.
 
 Oracle (the statement, clause by clause; reference code in mc/c17_ref.py):
@@ -18,7 +21,9 @@ Oracle (the statement, clause by clause; reference code in mc/c17_ref.py):
              reference) the answer is unchanged by shifting all pitches by octaves and by
              multiplying all durations by an exactly representable factor, transposing by k moves
              the tonic pitch class by k and keeps the mode, and the answer is the reference winner
-             for the selected profile set.
+             for the selected profile set; all of this also after any history of earlier queries in
+             the same process; a ranked answer (return_sorted_keys=True) is a sequence of valid key
+             names whose first entry is the reference winner where that is defined.
   importer   load_score_midi(...) with every combination of estimate_voice_info / estimate_key
              returns a score whose notes (tie chains merged) have exactly the file's multiset of
              MIDI pitches, each pitch on the note (start tick, end tick) it has in the file; with
@@ -52,6 +57,8 @@ ASSUMPTIONS = [
     "key: profile tables are data read from partitura.utils.globals; the reference correlation is computed independently in exact arithmetic; profile names used are the ones accepted by both estimate_key and ks_kid (krumhansl_kessler, temperley, kostka_payne, kp, default)",
     "key: duration rescaling uses exactly representable factors (1/4, 1/2, 2, 3) so that float32 columns stay exact",
     "valid key names = the 15 major and 15 minor key-signature names (liberal reading)",
+    "key: with return_sorted_keys=True 'the estimated key' is the first entry of the returned ranking; of the other entries only validity of the name is asserted (their order is not compared)",
+    "key: the answer to a query is a function of that query alone: the clauses are asserted on a probe after every enumerated history of earlier plain/ranked queries in the same process",
     "importer: no two equal pitches touch or overlap inside one (track, channel) (note pairing is C04's subject); onsets/durations are whole quarters and serve only to identify which note carries which pitch; tie chains count once and every chain member must have the pitch of its head",
     "importer: estimate_voice_info fills voices only where the assign mode gives none (the code's reading of the docstring)",
     "importer: the voices estimated for the file are observed at the importer's own call analysis.estimate_voices(note_array) through a pass-through recorder (estimate_voices is not a pure function of its input: streams are ordered through a set of objects, so results on inputs with ties vary between calls and cannot be recomputed); the recorded (onset_div, pitch, duration_div) rows must be exactly the file's notes in ticks, otherwise (or without exactly one such call) the partition clause gives no verdict (outcome partition=unobserved)",
